@@ -198,4 +198,8 @@ class ClassTable:
         dictlike = [i for c, i in classes if isinstance(c, type) and issubclass(c, dict) and c is not dict]
         dl = "(or false " + " ".join(f"(= (class_of (oid x)) {i})" for i in dictlike) + ")"
         lines.append(f"(define-fun obj_truthy ((x V)) Bool (ite {cond} false (ite {dl} (> (obj_dictlen x) 0) true)))")
+        # classes of the (closed) table whose instances are not subscriptable
+        nosub = [i for c, i in classes if isinstance(c, type) and i >= 100 and not issubclass(c, (dict, list, tuple, str))
+                 and not any("__getitem__" in vars(k) for k in c.__mro__[:-1])]
+        lines.append("(define-fun not_subscriptable ((c Int)) Bool (or false " + " ".join(f"(= c {i})" for i in nosub) + "))")
         return "\n".join(lines) + "\n"
